@@ -154,10 +154,9 @@ func (x *Exec) qvar(name string, t *SType) (SVal, []string, Term) {
 		ts = append(ts, Term{n, l.Sort})
 	}
 	v := x.unflattenS(t, ts)
+	// bound variables of integer type range over the mathematical integers: contracts state their own
+	// bounds, and a machine-range guard would have to be proved for arbitrary array elements
 	guard := True
-	if isIntT(t) {
-		guard = inRange(ts[0], t.G)
-	}
 	return SVal{v, t}, binders, guard
 }
 
@@ -358,6 +357,13 @@ var ghostTypes = map[string]*SType{}
 func (x *Exec) ghostType(name string) *SType {
 	if t, ok := ghostTypes[x.key+"/"+name]; ok {
 		return t
+	}
+	if te, ok := x.C.GhostVars[name]; ok {
+		env := &SpecEnv{x: x}
+		if p, okp := x.P.Pkgs[x.C.GhostVarPkg[name]]; okp {
+			env.pkg = p.Types
+		}
+		return x.resolveType(env, te)
 	}
 	return nil
 }
@@ -959,7 +965,7 @@ func (x *Exec) evalQuant(env *SpecEnv, e *EQuant) SVal {
 	}
 	txt := body.S
 	if len(pats) == 0 {
-		pats = autoPatterns(body.S, binders)
+		pats = autoPatterns(body.S, binders, !e.Forall)
 	}
 	if len(pats) > 0 {
 		txt = "(! " + txt + " " + strings.Join(pats, " ") + ")"
@@ -969,7 +975,7 @@ func (x *Exec) evalQuant(env *SpecEnv, e *EQuant) SVal {
 
 // autoPatterns chooses E-matching triggers for a quantifier body: innermost applications of
 // select / uninterpreted functions that mention bound variables.
-func autoPatterns(body string, binders []string) []string {
+func autoPatterns(body string, binders []string, isExists bool) []string {
 	var vars []string
 	for _, b := range binders {
 		f := strings.Fields(strings.Trim(b, "()"))
@@ -995,10 +1001,13 @@ func autoPatterns(body string, binders []string) []string {
 		}
 		return false
 	}
-	okHead := func(h string) bool {
+	okHead := func(h string, n *sexpr) bool {
 		switch h {
 		case "select", "sat", "slen", "ssub", "ofbytes", "tolower", "sconcat":
 			return true
+		case "at":
+			// (at off v) with a bare bound variable: a trigger that does not depend on the store structure of arrays
+			return n != nil && len(n.list) == 3 && !n.list[2].isL && isVar(n.list[2].atom)
 		}
 		return strings.HasPrefix(h, "spec.") || strings.HasPrefix(h, "unbox.") || strings.HasPrefix(h, "card.") || strings.HasPrefix(h, "addr.") || strings.HasPrefix(h, "f64.")
 	}
@@ -1032,7 +1041,7 @@ func autoPatterns(body string, binders []string) []string {
 		if h == "forall" || h == "exists" || h == "lambda" || h == "!" || h == "let" {
 			return vs, size, true // do not build patterns across nested binders
 		}
-		if okHead(h) && len(vs) > 0 {
+		if okHead(h, n) && len(vs) > 0 {
 			// skip if a child candidate already covers the same variables
 			covered := false
 			for _, cv := range childCandVars {
@@ -1040,7 +1049,19 @@ func autoPatterns(body string, binders []string) []string {
 					covered = true
 				}
 			}
-			if !covered {
+			if h == "select" {
+				// a select over an (at off v) index is still a useful trigger next to the bare (at off v)
+				onlyAt := true
+				for _, c := range n.list[1:] {
+					if c.isL && len(c.list) > 0 && !c.list[0].isL && c.list[0].atom != "at" && containsVar(c, vars) {
+						onlyAt = false
+					}
+				}
+				if onlyAt {
+					covered = false
+				}
+			}
+			if !covered && !strings.Contains(n.String(), "(ite ") {
 				cands = append(cands, cand{n.String(), vs, size})
 			}
 			return vs, size, true
@@ -1048,6 +1069,39 @@ func autoPatterns(body string, binders []string) []string {
 		return vs, size, childCand
 	}
 	walk(sx[0])
+	// a bare (at off v) trigger is only safe when no (at off <compound index mentioning a bound variable>) occurs:
+	// otherwise every instance creates a new at-term that matches again (matching loop)
+	compoundAt := false
+	var scan func(n *sexpr)
+	scan = func(n *sexpr) {
+		if !n.isL {
+			return
+		}
+		if len(n.list) == 3 && !n.list[0].isL && n.list[0].atom == "at" && n.list[2].isL && containsVar(n.list[2], vars) {
+			compoundAt = true
+		}
+		for _, c := range n.list {
+			scan(c)
+		}
+	}
+	scan(sx[0])
+	hasNonAt := false
+	for _, c := range cands {
+		if !strings.HasPrefix(c.text, "(at ") {
+			hasNonAt = true
+		}
+	}
+	// universal quantifiers (used as hypotheses) get select/function triggers only; existential ones
+	// (whose triggers matter only when they are goals, i.e. negated) may also use the liberal (at off v) trigger
+	if compoundAt || (hasNonAt && !isExists) {
+		var keep []cand
+		for _, c := range cands {
+			if !strings.HasPrefix(c.text, "(at ") {
+				keep = append(keep, c)
+			}
+		}
+		cands = keep
+	}
 	if len(cands) == 0 {
 		return nil
 	}
@@ -1064,7 +1118,7 @@ func autoPatterns(body string, binders []string) []string {
 	sort.Slice(cands, func(i, j int) bool { return cands[i].size < cands[j].size })
 	var pats []string
 	for _, c := range cands {
-		if len(c.vars) == len(vars) && len(pats) < 3 {
+		if len(c.vars) == len(vars) && len(pats) < 4 {
 			pats = append(pats, ":pattern ("+c.text+")")
 		}
 	}
@@ -1095,4 +1149,21 @@ func autoPatterns(body string, binders []string) []string {
 		return []string{":pattern (" + strings.Join(multi, " ") + ")"}
 	}
 	return nil
+}
+
+func containsVar(n *sexpr, vars []string) bool {
+	if !n.isL {
+		for _, v := range vars {
+			if n.atom == v {
+				return true
+			}
+		}
+		return false
+	}
+	for _, c := range n.list {
+		if containsVar(c, vars) {
+			return true
+		}
+	}
+	return false
 }
